@@ -44,6 +44,12 @@ func (v *fakeEVs) ByName(n protoreflect.Name) protoreflect.EnumValueDescriptor {
 	}
 	return nil
 }
+func (v *fakeEVs) ByNumber(n protoreflect.EnumNumber) protoreflect.EnumValueDescriptor {
+	if n < 0 || int(n) >= len(v.ed.values) {
+		return nil
+	}
+	return &fakeEV{name: v.ed.values[int(n)], num: int32(n)}
+}
 func (v *fakeEV) Number() protoreflect.EnumNumber { return protoreflect.EnumNumber(v.num) }
 func (v *fakeEV) Name() protoreflect.Name         { return protoreflect.Name(v.name) }
 
